@@ -4,6 +4,7 @@ package extendeddaemonsetreplicaset
 
 import (
 	"context"
+	autoscalingv1 "k8s.io/api/autoscaling/v1"
 	"strconv"
 	"time"
 
@@ -371,4 +372,61 @@ func ZZ_C02_roundsCanary() {
 	nondet.Reach("C02.canary.rollback", end == "failed" && rounds >= 1)
 	nondet.Reach("C02.canary.promotion", end == "validated" && rounds >= 2)
 	nondet.Reach("C02.canary.second-canary-then-rollout", end == "superseded" && rounds >= 5)
+}
+
+// ZZ_C02_brokenSettingDoesNotBlock: an ExtendedDaemonsetSetting that is NOT valid (in error, or not
+// yet examined by its controller) is no input of the replica-set sync: whatever is wrong with it —
+// here a node selector that cannot be converted — the nodes still converge to one Ready
+// live-template pod each.  Two (thorough: three) free nodes, the active replica set, a broken
+// setting in status error / unset, optionally a second, valid one for node0; repeated rounds of
+// {replica-set sync, kubelet step}.
+func ZZ_C02_brokenSettingDoesNotBlock() {
+	nNodes := 2
+	if nondet.Thorough() {
+		nNodes = 3
+	}
+	c, ds, rsNew, _ := zzStore(nNodes)
+	ds.Status.ActiveReplicaSet = rsNew.Name
+	broken := &datadoghqv1alpha1.ExtendedDaemonsetSetting{ObjectMeta: metav1.ObjectMeta{Name: "broken", Namespace: zzNS}}
+	broken.Spec.Reference = &autoscalingv1.CrossVersionObjectReference{Kind: "ExtendedDaemonSet", Name: zzEDSName}
+	broken.Spec.NodeSelector = metav1.LabelSelector{MatchExpressions: []metav1.LabelSelectorRequirement{{Key: "pool", Operator: metav1.LabelSelectorOpIn}}}
+	if nondet.Bool("broken.statusError") {
+		broken.Status.Status = datadoghqv1alpha1.ExtendedDaemonsetSettingStatusError
+		broken.Status.Error = "invalid selector"
+	}
+	c.Settings = append(c.Settings, broken)
+	if nondet.Bool("validSettingForNode0") {
+		c.Nodes[0].Labels = map[string]string{"pool": "a"}
+		ok := &datadoghqv1alpha1.ExtendedDaemonsetSetting{ObjectMeta: metav1.ObjectMeta{Name: "pool-a", Namespace: zzNS}}
+		ok.Spec.Reference = &autoscalingv1.CrossVersionObjectReference{Kind: "ExtendedDaemonSet", Name: zzEDSName}
+		ok.Spec.NodeSelector = metav1.LabelSelector{MatchLabels: map[string]string{"pool": "a"}}
+		ok.Status.Status = datadoghqv1alpha1.ExtendedDaemonsetSettingStatusValid
+		if nondet.Bool("validSettingListedFirst") {
+			c.Settings = []*datadoghqv1alpha1.ExtendedDaemonsetSetting{ok, broken}
+		} else {
+			c.Settings = append(c.Settings, ok)
+		}
+	}
+	r := zzReconciler(c, false)
+	converged := func() bool {
+		if len(c.Pods) != nNodes {
+			return false
+		}
+		seen := map[string]bool{}
+		for _, p := range c.Pods {
+			if p.Annotations[datadoghqv1alpha1.MD5ExtendedDaemonSetAnnotationKey] != rsNew.Spec.TemplateGeneration || seen[p.Spec.NodeName] || p.Spec.NodeName == "" {
+				return false
+			}
+			seen[p.Spec.NodeName] = true
+		}
+		return true
+	}
+	for round := 0; round < nNodes+2 && !converged(); round++ {
+		_, err := zzReconcile(r, zzNS, rsNew.Name)
+		nondet.Assert("C02.broken-setting.sync-succeeds", err == nil)
+		zzKubelet(c)
+	}
+	nondet.Assert("C02.broken-setting.converges", converged())
+	nondet.Observe("pods", len(c.Pods))
+	nondet.Reach("C02.broken-setting.done", converged())
 }
